@@ -79,8 +79,15 @@ def run(tier, seed):
             if len(r.cov["samples"]) < 8:
                 r.cov["samples"].append({"scenario": sc["id"], "end": end})
         else:
-            r.violation(f"{sc['id']}: interrupt did not stop the evaluation: {e} (latency {end.get('irq_latency_ms')} ms)",
-                        {"id": sc["id"], "trace": path, "end": end, "jit": jit})
+            # an ignored interrupt is attributed to the known finding only when the recorded trace shows
+            # its signature: the request was overwritten by a collection's pause/resume
+            val = sp.validate_irq_window(path, work, sc["id"]) if end.get("irq_sent") else None
+            tags = {t for t, _ in (val or {}).get("flags", [])}
+            if "C17-interrupt-overwritten" in tags and kf("C17-interrupt-overwritten-by-collection"):
+                r.notes.append(f"{sc['id']}: interrupt overwritten by a collection (known finding), outcome {e}")
+            else:
+                r.violation(f"{sc['id']}: interrupt did not stop the evaluation: {e} (latency {end.get('irq_latency_ms')} ms)",
+                            {"id": sc["id"], "trace": path, "end": end, "jit": jit, "window_validation": val})
     r.cov["distinct_nontrivial"] = nontriv + 2
     r.cov["rule"] = ("Safepoint.tla invariant C17 (a pending interrupt is never overwritten) exhaustively on the repaired protocol and as "
                      "counterexample of the as-is steps; directed interrupt placements and 12 loop shapes x JIT on/off on the real VM: "
